@@ -461,6 +461,10 @@ func (l *Lexer) quotedIdentifier(t *Token, start, next int) error {
 			return err
 		}
 
+		if r < ' ' {
+			return &unexpectedRuneError{r}
+		}
+
 		next += sz
 
 		if r == '"' {
@@ -474,9 +478,13 @@ func (l *Lexer) quotedIdentifier(t *Token, start, next int) error {
 		}
 
 		if r == '\\' {
-			_, sz, err := l.decodeRune(next)
+			r, sz, err := l.decodeRune(next)
 			if err != nil {
 				return err
+			}
+
+			if r < ' ' {
+				return &unexpectedRuneError{r}
 			}
 
 			next += sz
